@@ -94,7 +94,17 @@ static void run_script(TLS_CONNECT *conn, const char *who, int dir, const char *
 	long woff = 0; char buf[256]; snprintf(buf, sizeof buf, "%s", script);
 	char *sp = NULL;
 	for (char *op = strtok_r(buf, ",", &sp); op; op = strtok_r(NULL, ",", &sp)) {
-		if (op[0] == 'w') {
+		if (op[0] == 'm') {            // m<k>: k writes of one byte each (k records)
+			long k = atol(op + 1);
+			for (long j = 0; j < k; j++) {
+				uint8_t b = fbyte(dir, woff); size_t sent = 0;
+				vt_begin("WriteBegin"); vt_str("who", who); vt_int("n", 1); vt_end();
+				int rc = xsend(conn, &b, 1, &sent);
+				vt_begin("Write"); vt_str("who", who); vt_int("n", 1); vt_int("rc", rc); vt_int("sent", rc == 1 ? (long)sent : 0); vt_end();
+				if (rc != 1 || sent == 0) return;
+				woff += 1;
+			}
+		} else if (op[0] == 'w') {
 			long n = atol(op + 1), done = 0; uint8_t *data = malloc(n ? n : 1);
 			for (long i = 0; i < n; i++) data[i] = fbyte(dir, woff + i);
 			int calls = 0;
@@ -160,7 +170,7 @@ static void *endpoint(void *arg)
 	return NULL;
 }
 
-typedef struct { int in, out; uint8_t buf[80000]; size_t len; int idx; int eof; uint8_t held[20000]; size_t heldlen; uint8_t first[20000]; size_t firstlen; } LEG;
+typedef struct { int in, out; uint8_t buf[80000]; size_t len; int idx; int eof; uint8_t held[20000]; size_t heldlen; uint8_t first[20000]; size_t firstlen; uint8_t saved[20000]; size_t savedlen; } LEG;
 static uint64_t fragst;
 static void wr(int fd, const uint8_t *p, size_t n)
 {
@@ -186,6 +196,12 @@ static void forward(LEG *g, int dir)
 		const char *applied = "none"; size_t outl = rl; int drop = 0, dup = 0, hold = 0, inj = 0;
 		uint8_t injrec[20000]; size_t injlen = 0;
 		if (g->idx == 1) { memcpy(g->first, rec, rl); g->firstlen = rl; }
+		// replay: record idx is remembered and presented again, unchanged, off records later (before the record then in flight)
+		if (!strcmp(sc.fault, "replay") && dir == sc.dirn) {
+			if (g->idx == sc.idx && rl <= sizeof g->saved) { memcpy(g->saved, rec, rl); g->savedlen = rl; }
+			else if (g->idx == sc.idx + sc.off && g->savedlen) { memcpy(injrec, g->saved, g->savedlen); injlen = g->savedlen; inj = 1; applied = "replay"; }
+			hit = 0;
+		}
 		if (hit) {
 			applied = sc.fault;
 			if (!strcmp(sc.fault, "flip")) { if ((size_t)(5 + sc.off) < rl) rec[5 + sc.off] ^= (uint8_t)(1 << sc.bit); else applied = "none"; }
